@@ -724,6 +724,23 @@ theorem caddyfile_persist_config (cfg : Bytes) (force accepted : Bool) (ft : Opt
     rw [hcfg] at this
     simpa [runLoads, AEvent.step] using this
 
+/-- **the CA root on the default storage is reloaded unchanged across restarts**: the data
+    directory is a function of the process environment and the env files alone
+    (`storageDir`), so every process of a history with the same command line looks where the first
+    one wrote: the root it uses is the root the first one created, whatever was created since. -/
+theorem default_storage_root_reloaded (roots : DataDir → Option Nat) (dir : DataDir) (fresh fresh' : Nat) :
+    (useRoot (useRoot roots dir fresh).2 dir fresh').1 = (useRoot roots dir fresh).1 ∧
+    (useRoot (useRoot roots dir fresh).2 dir fresh').2 = (useRoot roots dir fresh).2 := by
+  unfold useRoot
+  cases h : roots dir with
+  | none => simp
+  | some r => simp [h]
+
+example : storageDir (some .unset) ⟨.unset, .dir 1⟩ [[(.data, .dir 2)]] = .xdgData 2 ∧
+    storageDir (some (.dir 0)) ⟨.unset, .dir 1⟩ [[(.data, .dir 2)]] = .xdgData 0 ∧
+    storageDir (some .unset) ⟨.unset, .unset⟩ [[(.home, .dir 3)]] = .homeShare 3 ∧
+    storageDir none ⟨.unset, .dir 1⟩ [] = .fixed := by decide
+
 /-- an env file that defines XDG_CONFIG_HOME moves the autosave directory (so the theorems above
     are not about a constant) -/
 example : writerDir ⟨.unset, .dir 1⟩ [[(.xdg, .dir 2)]] = .xdg 2 ∧ appConfigDir ⟨.unset, .dir 1⟩ = .home 1 ∧
